@@ -5,6 +5,7 @@ from harness import solverlib as L, solvergen as G
 PARALLEL = True
 SHARD = 40
 COQ_TIMEOUT = 1200
+MAX_TERM_CHARS = 1500000
 MAX_MODEL_ITERS = 400
 TRUSTED = [
     "user cost / constraints / penalty are recorded tables in the correspondence run and universally quantified section variables in the theorems",
@@ -819,7 +820,10 @@ def make_coq_terms(mask):
             return []
         if sum(len(r.get("inputs", [])) for r in out.get("opres", [])) > MAX_MODEL_ITERS:
             return []      # a run of thousands of iterations (e.g. every energy infinite until the default limits): oracle only
-        return [L.check_term(case, out, mask)]
+        t = L.check_term(case, out, mask)
+        if len(t) > MAX_TERM_CHARS:
+            return []      # (e.g. a Powell Solve of thousands of evaluations under an evaluation monitor: megabytes of expected observations) oracle only
+        return [t]
     return coq_terms
 
 
